@@ -367,6 +367,14 @@ fn refusals_and_passthrough(rep: &Report) {
         "m:reproj x=4",
         "m:reproj inv x=4",
         "unitconvert xy_in=deg xy_out=rad # proj",
+        // Geodesy text is not PROJ text just because the letters "proj" occur in it: macro names, argument values,
+        // pipelines written with the < > sugar only
+        "my:proj a=1 rf=2 k=3",
+        "my:other a=1 rf=2 k=3 note=proj",
+        "my:other a=1 rf=2 k=3 note=reproject",
+        "inv addone > m:reproj",
+        "addone < m:reproj inv x=4",
+        "helmert x=3 > m:reproj",
     ];
     for text in texts {
         rep.eval(1);
@@ -380,6 +388,10 @@ fn refusals_and_passthrough(rep: &Report) {
         let mut minimal = Minimal::new();
         plain.register_resource("m:reproj", "helmert x=(1) y=2");
         minimal.register_resource("m:reproj", "helmert x=(1) y=2");
+        for n in ["my:proj", "my:other"] {
+            plain.register_resource(n, "helmert x=$a y=$rf z=$k");
+            minimal.register_resource(n, "helmert x=$a y=$rf z=$k");
+        }
         let a = fp_of(&mut plain, text);
         let b = fp_of(&mut minimal, text);
         if a != b || a.is_err() {
